@@ -66,4 +66,26 @@ def runChain (O : Oracles) (cls : FieldDecl) : PyVal → List EntryOp → R PyVa
   | x, [] => .ok x
   | x, op :: rest => bindE (applyEntry O cls x op) fun y => runChain O cls y rest
 
+/-! ### the class's own `__validate__` hook
+
+`Structure.__init__` calls `self.__validate__()` after all fields are set.  The hook is an oracle of the
+model (`Oracles.hookOk`, a verdict on the attribute list), universally quantified in the theorems; with the
+default oracle (no hook) the hooked functions coincide with the plain ones. -/
+
+/-- keyword construction followed by the class's `__validate__` hook (its exceptions surface as ValueError
+    in the correspondence suites) -/
+def constructH (O : Oracles) (cls : FieldDecl) (kw : List (String × PyVal)) : R PyVal :=
+  bindE (construct O cls kw) fun x => if O.hookOk (instAttrs x) then .ok x else .error .valueErr
+
+/-- the entry points with the hook: copies keep the instance, the rebuilding ones go through the hooked
+    constructor -/
+def applyEntryH (O : Oracles) (cls : FieldDecl) (x : PyVal) (op : EntryOp) : R PyVal :=
+  match op with
+  | .copy | .deepcopy | .pickle => .ok x
+  | _ => bindE (applyEntry O cls x op) fun y => if O.hookOk (instAttrs y) then .ok y else .error .valueErr
+
+def runChainH (O : Oracles) (cls : FieldDecl) : PyVal → List EntryOp → R PyVal
+  | x, [] => .ok x
+  | x, op :: rest => bindE (applyEntryH O cls x op) fun y => runChainH O cls y rest
+
 end Typedpy
